@@ -18,6 +18,7 @@ import (
 	"regexp"
 	"sort"
 	"strings"
+	"time"
 
 	"verif/harness/internal/hutil"
 
@@ -76,6 +77,8 @@ var commentPats = []string{`TODO`, `FIXME|TODO`, `\((alice|bob)\)`}
 var filters = []string{
 	"", `m["x"].Type.Size == 8`, `m["x"].Type.Size <= 2`, `m["x"].Type.Is("int32")`, `m["x"].Text == "a8"`, "FN",
 	`!m["x"].Type.Is("int64")`,
+	// names resolved through the engine-wide type lookup at load time
+	`!m["x"].Type.Implements("io.Reader")`, `!m["x"].Type.HasMethod("io.Writer.Write")`, `!m["x"].Type.Implements("error")`,
 }
 
 func renderFn(f Fn) string {
@@ -102,8 +105,12 @@ func renderRule(r Rule) string {
 			return fmt.Sprintf("\tm.Match(`%s`).Where(m[\"nosuch\"].Pure).Report(`%s`)\n", syntaxPats[r.Pat], msg)
 		case 2:
 			return fmt.Sprintf("\tm.MatchComment(`(`).Report(`%s`)\n", msg)
-		default:
+		case 3:
 			return fmt.Sprintf("\tm.Match(`%s`).Where(m[\"x\"].Type.Is(\"[\")).Report(`%s`)\n", syntaxPats[r.Pat], msg)
+		default: // a name the engine-wide type lookup cannot resolve: known package without the name, unknown package, not a type name
+			arg := []string{`Implements("io.NoSuchInterface")`, `HasMethod("io.NoSuchInterface.Write")`, `Implements("nosuch/pkg.T")`,
+				`HasMethod("nosuchpkg.T.M")`, `Implements("io.PipeReader")`, `HasMethod("io.Reader.NoSuchMethod")`}[(r.Bad-4)%6]
+			return fmt.Sprintf("\tm.Match(`%s`).Where(m[\"x\"].Type.%s).Report(`%s`)\n", syntaxPats[r.Pat], arg, msg)
 		}
 	}
 	w := filters[r.Filter]
@@ -290,9 +297,18 @@ var locRe = regexp.MustCompile(`[\w./-]+\.go:\d+`)
 
 const importFlake = "could not import github.com/quasilyte/go-ruleguard/dsl"
 
+const hangMark = "Load does not return"
+
 func load(e *ruleguard.Engine, fset *token.FileSet, name, src string, via string, accept map[string]bool) (o loadObs) {
 	for try := 0; try < 4; try++ {
-		o = load1(e, fset, name, src, via, accept)
+		// a call that does not come back (a lock left behind by an earlier call) must not take the whole run with it
+		ch := make(chan loadObs, 1)
+		go func() { ch <- load1(e, fset, name, src, via, accept) }()
+		select {
+		case o = <-ch:
+		case <-time.After(90 * time.Second):
+			return loadObs{Panic: hangMark + " within 90 s (the engine cannot be used any more; the history ends here)"}
+		}
 		if !strings.Contains(o.Err, importFlake) {
 			break
 		}
@@ -441,7 +457,7 @@ func genFile(rng *rand.Rand, id int, uid *int, pkgs map[string][]*SFile) *RFile 
 	sf.Fns = genFns(rng)
 	ng := 1 + rng.Intn(3)
 	badAt := -1
-	if rng.Intn(6) == 0 {
+	if rng.Intn(4) == 0 || id <= 3 {
 		badAt = rng.Intn(ng)
 	}
 	for gi := 0; gi < ng; gi++ {
@@ -452,7 +468,15 @@ func genFile(rng *rand.Rand, id int, uid *int, pkgs map[string][]*SFile) *RFile 
 		}
 		if gi == badAt {
 			*uid++
-			bad := Rule{UID: *uid, Kind: "bad", Bad: rng.Intn(4), Pat: rng.Intn(len(syntaxPats))}
+			bad := Rule{UID: *uid, Kind: "bad", Bad: rng.Intn(10), Pat: rng.Intn(len(syntaxPats))}
+			switch id { // the first three files of every pool fail in one way of each class
+			case 1:
+				bad.Bad = 4 + rng.Intn(2) // a package that can be imported, without the name
+			case 2:
+				bad.Bad = 6 + rng.Intn(4) // unknown package / not an interface / no such method
+			case 3:
+				bad.Bad = rng.Intn(4) // pattern, variable, regexp, type pattern
+			}
 			pos := rng.Intn(len(g.Rules) + 1)
 			g.Rules = append(g.Rules[:pos], append([]Rule{bad}, g.Rules[pos:]...)...)
 		}
@@ -648,6 +672,11 @@ func main() {
 			hist.Ops = append(hist.Ops, op)
 			var s Step
 			s.Load = load(e, t.Fset, out.Files[op.File].Main.Name, out.Sources[op.File], op.Via, acceptOf(op.Filter))
+			if strings.HasPrefix(s.Load.Panic, hangMark) {
+				s.Groups, s.Reports, s.State0, s.State1 = []GroupObs{}, []Rep{}, []Rep{}, []Rep{}
+				hist.Steps = append(hist.Steps, s)
+				break
+			}
 			if s.Load.OK && st1 == nil {
 				st1 = ruleguard.NewRunnerState(e)
 			}
